@@ -8,7 +8,9 @@
 //     (`<cmd>_chunk_dependent`), and for head / tail / dedup / windowed streamstats the
 //     un-cut run equals the documented meaning computed independently (`<cmd>_wrong_rows`).
 //     The observations go to Coq case files where the models of Pipe.v must reproduce them
-//     for every cut (including the per-cut results of the known windowed-streamstats defect).
+//     for every cut (the streams of the two repaired streamstats defects included: a regression
+//     comes back as a VIOLATION of class streamstats_window_batch_dependent /
+//     streamstats_reset_on_change_batch_dependent with its input).
 //  2. end to end: the same events ingested under different flush / rotation layouts and
 //     GOMAXPROCS values (worker processes), the same SPL through the real query path;
 //     results must agree across layouts (`e2e_<cmd>_layout_dependent`).
@@ -524,6 +526,22 @@ func docWindowSum(w int, vf, outf string, count bool) docFn {
 	}
 }
 
+// reset_on_change=true count as <out> by <g>: position inside the current run of equal g
+func docRunCount(g, outf string) docFn {
+	return func(in []CRow, _ []string) []CRow {
+		out := make([]CRow, len(in))
+		n := int64(0)
+		for i, r := range in {
+			if i > 0 && in[i-1].get(g).canon() == r.get(g).canon() {
+				n++
+			} else {
+				n = 1
+			}
+			out[i] = withCell(r, outf, Cell{K: 'i', I: n})
+		}
+		return out
+	}
+}
 func dedupModel(limit int, fields []string, consecutive, keepempty, keepevents bool) modelFn {
 	return func(cc *coqCtx) string {
 		return fmt.Sprintf("(dedup_cmd (Hof htbl) {| d_limit := %d; d_fields := %s; d_consecutive := %v; d_keepempty := %v; d_keepevents := %v |})",
@@ -535,7 +553,7 @@ func ssModel(fn, field, out string, current bool, by []string, window int, globa
 }
 func ssModelR(fn, field, out string, current bool, by []string, window int, global, resetOnChange bool) modelFn {
 	return func(cc *coqCtx) string {
-		return fmt.Sprintf("(streamstats_cmd true {| ss_func := %s; ss_field := %s; ss_out := %s; ss_current := %v; ss_by := %s; ss_window := %d; ss_global := %v; ss_reset_on_change := %v |})",
+		return fmt.Sprintf("(streamstats_cmd false {| ss_func := %s; ss_field := %s; ss_out := %s; ss_current := %v; ss_by := %s; ss_window := %d; ss_global := %v; ss_reset_on_change := %v |})",
 			fn, cc.field(field), cc.field(out), current, cc.fieldList(by), window, global, resetOnChange)
 	}
 }
@@ -636,19 +654,19 @@ func buildSpecs() []Spec {
 	add(Spec{Family: "streamstats", SPL: "streamstats window=3 global=false current=false count as c by g", Model: ssModel("SCount", "v", "c", false, []string{"g"}, 3, false), Kind: "chk"})
 	add(Spec{Family: "streamstats", SPL: "streamstats count as c, sum(v) as sv, max(v) as mx, min(v) as mn by g"})
 	add(Spec{Family: "streamstats", SPL: "streamstats avg(v) as av"})
-	// known: global window
-	add(Spec{Family: "sswindow", SPL: "streamstats window=3 sum(v) as sv", Model: ssModel("SSum", "v", "sv", true, nil, 3, true), Kind: "each",
+	// fixed (was batch dependent): global window; the class stays so that a regression is reported with its input
+	add(Spec{Family: "sswindow", SPL: "streamstats window=3 sum(v) as sv", Model: ssModel("SSum", "v", "sv", true, nil, 3, true), Kind: "chk",
 		Doc: docWindowSum(3, "v", "sv", false), Known: "streamstats_window_batch_dependent", Tables: "num"})
-	add(Spec{Family: "sswindow", SPL: "streamstats window=2 count as c", Model: ssModel("SCount", "v", "c", true, nil, 2, true), Kind: "each",
+	add(Spec{Family: "sswindow", SPL: "streamstats window=2 count as c", Model: ssModel("SCount", "v", "c", true, nil, 2, true), Kind: "chk",
 		Doc: docWindowSum(2, "v", "c", true), Known: "streamstats_window_batch_dependent", Tables: "num"})
-	add(Spec{Family: "sswindow", SPL: "streamstats window=1 sum(v) as sv", Model: ssModel("SSum", "v", "sv", true, nil, 1, true), Kind: "each",
+	add(Spec{Family: "sswindow", SPL: "streamstats window=1 sum(v) as sv", Model: ssModel("SSum", "v", "sv", true, nil, 1, true), Kind: "chk",
 		Doc: docWindowSum(1, "v", "sv", false), Known: "streamstats_window_batch_dependent", Tables: "num"})
-	add(Spec{Family: "sswindow", SPL: "streamstats window=2 current=false sum(v) as sv by g", Model: ssModel("SSum", "v", "sv", false, []string{"g"}, 2, true), Kind: "each",
+	add(Spec{Family: "sswindow", SPL: "streamstats window=2 current=false sum(v) as sv by g", Model: ssModel("SSum", "v", "sv", false, []string{"g"}, 2, true), Kind: "chk",
 		Known: "streamstats_window_batch_dependent", Tables: "num"})
-	// known: reset_on_change forgets the previous key at every batch start
-	add(Spec{Family: "ssreset", SPL: "streamstats reset_on_change=true count as c by g", Model: ssModelR("SCount", "v", "c", true, []string{"g"}, 0, true, true), Kind: "each",
+	// fixed (was batch dependent): reset_on_change forgot the previous key at every batch start
+	add(Spec{Family: "ssreset", SPL: "streamstats reset_on_change=true count as c by g", Model: ssModelR("SCount", "v", "c", true, []string{"g"}, 0, true, true), Kind: "chk", Doc: docRunCount("g", "c"),
 		Known: "streamstats_reset_on_change_batch_dependent"})
-	add(Spec{Family: "ssreset", SPL: "streamstats reset_on_change=true sum(v) as sv by a", Model: ssModelR("SSum", "v", "sv", true, []string{"a"}, 0, true, true), Kind: "each",
+	add(Spec{Family: "ssreset", SPL: "streamstats reset_on_change=true sum(v) as sv by a", Model: ssModelR("SSum", "v", "sv", true, []string{"a"}, 0, true, true), Kind: "chk",
 		Known: "streamstats_reset_on_change_batch_dependent"})
 	// reset_on_change without a by-clause never resets (bucket key stays "")
 	add(Spec{Family: "streamstats", SPL: "streamstats reset_on_change=true count as c", Model: ssModelR("SCount", "v", "c", true, nil, 0, true, true), Kind: "chk"})
@@ -1017,6 +1035,9 @@ func main() {
 					}
 					if s.Family == "sswindow" {
 						cls = "streamstats_window_wrong_uncut"
+					}
+					if s.Family == "ssreset" {
+						cls = "streamstats_reset_on_change_wrong_uncut"
 					}
 					if s.DocKnown != "" && xorCollision(in, "a", "b") {
 						cls = s.DocKnown
